@@ -34,11 +34,20 @@ def gen_history(rng, hid):
     steps.append({"t": t, "calls": calls})
     recs = []
     hosts = [[rng.choice([b"SfHost", b"sfhost", b"Mixed-Case-Host", b"h"]), b"local"] for _ in range(2)]
+    nexp = 0
     for i in range(rng.choice([1, 2, 3])):
         inst = [b"I%d" % i + rng.choice([b"", b" x", b"Z"])] + ty
         host = rng.choice(hosts)
+        shape = rng.choice(["full", "full", "full", "no-srv", "srv-expires"])
+        if shape == "no-srv":
+            # PTR and TXT only (the SRV never came, or ran out long ago): still cached for this browse
+            recs += [(ty, 12, 1, 4500, dnsgen.rd_ptr(inst)),
+                     (inst, 16, 0x8001, 4500, dnsgen.rd_bytes(b"\x01a"))]
+            continue
+        if shape == "srv-expires":
+            nexp += 2          # an A and possibly an AAAA record of its host
         recs += [(ty, 12, 1, 4500, dnsgen.rd_ptr(inst)),
-                 (inst, 33, 0x8001, 120, dnsgen.rd_srv(0, 0, 80 + i, host)),
+                 (inst, 33, 0x8001, 2 if shape == "srv-expires" else 120, dnsgen.rd_srv(0, 0, 80 + i, host)),
                  (inst, 16, 0x8001, 4500, dnsgen.rd_bytes(b"\x01a")),
                  (host, 1, 0x8001, 120, dnsgen.rd_bytes(bytes([192, 168, 1, 50 + i])))]
         if rng.random() < 0.3:
@@ -46,7 +55,8 @@ def gen_history(rng, hid):
     nsub = 0
     for (nm, ty_, _c, _t, rd) in list(recs):
         # subtype PTRs of the browsed type, as a responder with subtypes announces them
-        if ty_ == 12 and nm == ty and rng.random() < 0.35:
+        # (not combined with the expired-SRV shape: each known leftover class is observed alone)
+        if ty_ == 12 and nm == ty and nexp == 0 and rng.random() < 0.35:
             recs.append(([rng.choice([b"_s1", b"_printer"]), b"_sub"] + ty, 12, 1, 4500, rd))
             nsub += 1
     nkeep = 0
@@ -75,7 +85,7 @@ def gen_history(rng, hid):
                 sty = dnsgen.dotted(nm).decode()
         steps.append({"t": t, "calls": [{"op": "browse", "ty": sty, "ch": "s"}]})
         steps.append({"run_until": t + 3000})
-    return json.dumps({"id": hid, "sf": nkeep, "nsub": nsub, "ty": tys, "t0": 1000000, "daemons": [{"seed": 1, "ifaces": IFACES}], "steps": steps},
+    return json.dumps({"id": hid, "sf": nkeep, "nsub": nsub, "nexp": nexp, "ty": tys, "t0": 1000000, "daemons": [{"seed": 1, "ifaces": IFACES}], "steps": steps},
                       separators=(",", ":"))
 
 
@@ -114,6 +124,10 @@ def project(line, raw):
                         if nsub and got[1:] == want[1:] and 0 < got[0] - want[0] <= nsub:
                             # exactly the subtype PTRs of the stopped type are left, nothing else
                             return "SF leftover-subptr %s=%s expected %s" % (ch, got, want)
+                        nexp = h.get("nexp", 0)
+                        if nexp and got[:3] == want[:3] and 0 < got[3] - want[3] <= nexp:
+                            # only addresses are left, of hosts whose SRV had run out before the stop
+                            return "SF leftover-addr-srv-expired %s=%s expected %s" % (ch, got, want)
                         return "SF leftover %s=%s expected %s" % (ch, got, want)
         for e in (r.get("events") or {}).get("s", []):
             if e.get("e") in ("ServiceFound", "ServiceResolved"):
